@@ -126,6 +126,30 @@ UNITS.append(dict(name="c10_gnat_node_add", template="C10/gnat_add.c", mode="pla
                   canaries=[dict(name="range_of_the_wrong_child", where="body:add", rx=r"CHILD_UPDATE_RANGE\(i, minInd, dist\[i\]\);", repl="CHILD_UPDATE_RANGE(i, minInd, dist[minInd]);"),
                             dict(name="first_child_never_compared", where="body:add", rx=r"for \(unsigned int i = 1; i < n_children; \+\+i\)", repl="for (unsigned int i = 2; i < n_children; ++i)")]))
 
+# ---------------------------------------------------------------- GNAT query drivers (both variants): the node queue is processed to the end, nodes are skipped only by the pruning rule
+GD_RULES = [
+    (r"bool isPivot;\s*double dist;\s*(?:NodeDist nodeDist;\s*NodeQueue nodeQueue;|Node \*node;)", "bool isPivot; D dist; unsigned node;", 0),
+    (r"double dist = radius;", "D dist = radius;", 0), (r"NodeQueue nodeQueue;\s*NodeDist nodeDist;", "unsigned node;", 0), (r"Node \*node;", "unsigned node;", 0),
+    (r"(?:dist|tree_->distToPivot_) = NearestNeighbors<_T>::distFun_\(data, tree_->pivot_\);", "", 0),
+    (r"isPivot = tree_->insertNeighborK\([^;]*\);", "isPivot = nondet_bool(); nbh_size = 1; nbh_top = N_dist[1];", 0),
+    (r"tree_->insertNeighborR\((?:[^;()]|\([^()]*\))*\);", "", 0),
+    (r"tree_->nearestK\([^;]*\);", "queued_ever[1] = true; EXPAND_K(1);", 0), (r"tree_->nearestR\([^;]*\);", "queued_ever[1] = true; EXPAND_R(1);", 0),
+    (r"!nodeQueue_?\.empty\(\)", "!NODEQ_EMPTY()", 0),
+    (r"dist = (?:nbhQueue|nearQueue_)\.top\(\)\.first;", "dist = nbh_top;", 0),
+    (r"(?:nodeDist|node) = nodeQueue_?\.top\(\);", "node = NODEQ_TOP(); last_top = node;", 0), (r"nodeQueue_?\.pop\(\);", "NODEQ_POP();", 0),
+    (r"(?:nbhQueue|nearQueue_)\.size\(\) == k", "nbh_size == k", 0),
+    (r"nodeDist\.second|node->distToPivot_", "N_dist[node]", 0), (r"(?:nodeDist\.first|node)->maxRadius_", "N_maxRadius[node]", 0), (r"(?:nodeDist\.first|node)->minRadius_", "N_minRadius[node]", 0),
+    (r"(?:nodeDist\.first|node)->nearestK\([^;]*\);", "EXPAND_K(node);", 0), (r"(?:nodeDist\.first|node)->nearestR\([^;]*\);", "EXPAND_R(node);", 0),
+]
+for _var, _file, _ksig, _rsig in (("gnat", GN, r"bool nearestKInternal\(const _T &data, std::size_t k, NearQueue &nbhQueue\) const", r"void nearestRInternal\(const _T &data, double radius, NearQueue &nbhQueue\) const"),
+                                  ("gnatnts", NT, r"bool nearestKInternal\(const _T &data, std::size_t k\) const", r"void nearestRInternal\(const _T &data, double radius\) const")):
+    _src = [dict(name="nearestKInternal", file=_file, sig=_ksig, rules=[(r"\bcontinue;", "{ PRUNED(node, dist, nbh_size == k); continue; }", 0), (r"\bbreak;", "{ PRUNED(node, dist, nbh_size == k); break; }", 0)] + GD_RULES, loops={"allow_uncontracted": True}),
+            dict(name="nearestRInternal", file=_file, sig=_rsig, rules=[(r"\bcontinue;", "{ PRUNED(node, dist, true); continue; }", 0), (r"\bbreak;", "{ PRUNED(node, dist, true); break; }", 0)] + GD_RULES, loops={"allow_uncontracted": True})]
+    for _h, _can in (("nearestKInternal", [dict(name="stops_at_the_first_pruned_node", where="body:nearestKInternal", rx=r"continue; \}", repl="break; }"), dict(name="prunes_before_k_are_known", where="body:nearestKInternal", rx=r"nbh_size == k &&", repl="", count=1)]),
+                     ("nearestRInternal", [dict(name="stops_at_the_first_pruned_node", where="body:nearestRInternal", rx=r"continue; \}", repl="break; }")])):
+        UNITS.append(dict(name="c10_%s_%s" % (_var, _h), template="C10/gnat_driver.c", mode="plain", entry="h_" + _h, sources=_src, needs=[_h], flags=PFLAGS, unwind=8, level="bounded", bound="<= 5 tree nodes, exact integer distances",
+                          backend="cadical", timeout=600, functions=[("NearestNeighborsGNAT::" if _var == "gnat" else "NearestNeighborsGNATNoThreadSafety::") + _h], canaries=_can))
+
 ASSUMPTIONS = ["GNAT pruning: distances are exact integers standing for reals (linear rule: valid over the reals iff over the integers; rounding not modelled); the range/radius envelopes contain the true pivot-to-element distances (the structure invariant maintained by add/split, assumed here); the metric satisfies the triangle inequality",
                "elements are addressed by slot; the distance function returns a fixed non-NaN value per element; std::sort is an assumed contract (result ordered by the comparator)", "<= 64 stored elements"]
 TRUSTED = ["extraction rewrite table of units/C10.py", "stubs in units/C10/linear.c", "CBMC 6.11 DFCC + cadical"]
